@@ -476,7 +476,7 @@ func run(r *core.Run) int {
 						for j := range cp {
 							cp[j].Critical = mask>>j&1 == 1
 						}
-						cases = append(cases, &Case{MT: mt, Scheme: scheme, Extras: cp, Expiry: i%2 == 0, CritExtrasFirst: mask%2 == 1, ZeroExpiry: mt == sims.JWS && i%2 == 1 && mask%3 == 0})
+						cases = append(cases, &Case{MT: mt, Scheme: scheme, Extras: cp, Expiry: i%2 == 0, CritExtrasFirst: mask%2 == 1, ZeroExpiry: mt == sims.JWS && i%2 == 1 && (mask+i/2)%2 == 0})
 					}
 				} else {
 					for j := range ex {
